@@ -653,3 +653,123 @@ Theorem C14_turns_example :
   end.
 Proof. exact ex_turns_decided. Qed.
 Print Assumptions C14_turns_example.
+
+(* ====================================================================== G4 / G5 at file level (round 4) *)
+From NV Require Import Proofs.GuardMore.
+
+(* ---- round 4: G4 (second guard after the first) and G5 (a declaration before the guard) at token and file level ---- *)
+Theorem C14_tok_G4 :
+  forall base : str,
+  file_type base = s ".h" ->
+  forall (oracle : nat -> Engine.tryres) (toks : list Lexer.token) (pre body : list stmt)
+  (x y : str) (l4 rest4 : list Lexer.token) (x2 : str) (j4 : Z),
+  balanced body ->
+  map tv l4 = ifndef_line x2 ->
+  guarded_shape oracle toks pre body x y (l4 ++ rest4) ->
+  EngineTok.remaining oracle toks (turns pre body) = l4 ++ rest4 ->
+  oracle (turns pre body) = Engine.Matched PRE j4 ->
+  In (s "HEADER_PROT_MULT") (tok_emitted base oracle toks (S (turns pre body))).
+Proof. exact tok_G4. Qed.
+Print Assumptions C14_tok_G4.
+
+Theorem C14_tok_G5 :
+  forall base : str,
+  file_type base = s ".h" ->
+  forall (oracle : nat -> Engine.tryres) (toks : list Lexer.token) (pre : list stmt)
+  (x : str) (l1 rest1 : list Lexer.token) (j : Z),
+  (forall (i : nat) (s0 : stmt), nth_error pre i = Some s0 -> front_turn oracle i s0) ->
+  existsb (fun s0 : stmt => negb (is_trivia s0)) pre = true ->
+  EngineTok.remaining oracle toks (Datatypes.length pre) = l1 ++ rest1 ->
+  map tv l1 = ifndef_line x ->
+  oracle (Datatypes.length pre) = Engine.Matched PRE j ->
+  In (s "HEADER_PROT_ALL") (tok_emitted base oracle toks (S (Datatypes.length pre))).
+Proof. exact tok_G5. Qed.
+Print Assumptions C14_tok_G5.
+
+(* file level.  G4: what follows the closing `#endif` line starts with the tokens of another `#ifndef` line (the translated
+   matcher recognises it, jump 5).  Left: induced_g, the body simulation, the position of the `#endif` line, and that the tokens
+   after it begin with an ifndef_line (all statements about the token list / `remaining`, none about the oracle) *)
+Theorem C14_file_G4_induced_partial :
+  forall (uw ud : N -> bool) (base : str),
+  file_type base = s ".h" ->
+  forall f : Header.fields,
+  HeaderLex.fields_lex_ok f = true ->
+  forall (R : str) (itemsR : list Lexer.item) (xR : Lexer.st),
+  Lexer.lex uw ud R = Ok (itemsR, xR) ->
+  forall (oracle : nat -> Engine.tryres) (body : list stmt) (x y x2 : str) (l4 rest4 : list Lexer.token)
+  (items' : list Lexer.item) (xf' : Lexer.st),
+  ident_ok x ->
+  ident_ok y ->
+  balanced body ->
+  map tv l4 = ifndef_line x2 ->
+  Lexer.lex uw ud (Header.lines_text (Header.template f) ++ ifndef_text x ++ define_text y ++ R) =
+  Ok (items', xf') ->
+  induced_g oracle (Lexer.tokens_of items') ->
+  rest_shape_g oracle (Lexer.tokens_of items') 13 body (l4 ++ rest4) ->
+  In (s "HEADER_PROT_MULT")
+  (tok_emitted base oracle (Lexer.tokens_of items') (S (turns comments11 body))).
+Proof. exact file_G4_induced_partial. Qed.
+Print Assumptions C14_file_G4_induced_partial.
+
+(* G5: turn 11 (right after the header) is matched by a primary other than IsComment / IsEmptyLine / IsPreprocessorStatement
+   (an untranslated primary: abstract IsOther turn) and leaves the `#ifndef` line in front.  Left: induced_g, that turn, the
+   position of the `#ifndef` line *)
+Theorem C14_file_G5_induced_partial :
+  forall (uw ud : N -> bool) (base : str),
+  file_type base = s ".h" ->
+  forall f : Header.fields,
+  HeaderLex.fields_lex_ok f = true ->
+  forall (oracle : nat -> Engine.tryres) (S0 : str) (itemsS : list Lexer.item)
+  (xS : Lexer.st) (items' : list Lexer.item) (xf' : Lexer.st) (nm : str) (j : Z)
+  (x : str) (l1 rest1 : list Lexer.token),
+  Lexer.lex uw ud S0 = Ok (itemsS, xS) ->
+  Lexer.lex uw ud (Header.lines_text (Header.template f) ++ S0) = Ok (items', xf') ->
+  induced_g oracle (Lexer.tokens_of items') ->
+  oracle 11%nat = Engine.Matched nm j ->
+  str_eqb nm PRE = false ->
+  norm_name nm = s "IsOther" ->
+  EngineTok.remaining oracle (Lexer.tokens_of items') 12 = l1 ++ rest1 ->
+  map tv l1 = ifndef_line x ->
+  In (s "HEADER_PROT_ALL") (tok_emitted base oracle (Lexer.tokens_of items') 13).
+Proof. exact file_G5_induced_partial. Qed.
+Print Assumptions C14_file_G5_induced_partial.
+
+Theorem C14_after_ifndef_ok :
+  forall (l4 rest4 : list Lexer.token) (x2 : str),
+  map tv l4 = ifndef_line x2 ->
+  l4 ++ rest4 = [] \/
+  (exists (t : Lexer.token) (more : list Lexer.token),
+  l4 ++ rest4 = t :: more /\ is_trivia_ty (Lexer.t_type t) = false).
+Proof. exact after_ifndef_ok. Qed.
+Print Assumptions C14_after_ifndef_ok.
+
+(* examples: concrete header texts, tokenizer model run, turns decided by the translated primaries *)
+Theorem C14_example_file_G4 :
+  match Lexer.lex nouni_ nouni_ ex_text_G4 with
+  | Ok (items, _) =>
+  tok_emitted (s "a.h") ex_oracle_G4 (Lexer.tokens_of items) 4 =
+  [s "HEADER_PROT_ALL_AF"; s "HEADER_PROT_MULT"] /\
+  map
+  (fun k : nat =>
+  turn_g RegistryOrder.primaries_order
+  (EngineTok.remaining ex_oracle_G4 (Lexer.tokens_of items) k)) [0%nat; 1%nat; 2%nat; 3%nat] =
+  [Some (Engine.Matched PRE 5); Some (Engine.Matched PRE 6); Some (Engine.Matched PRE 3);
+  Some (Engine.Matched PRE 5)]
+  | _ => False
+  end.
+Proof. exact ex_file_G4. Qed.
+Print Assumptions C14_example_file_G4.
+
+Theorem C14_example_file_G5 :
+  match Lexer.lex nouni_ nouni_ ex_text_G5 with
+  | Ok (items, _) =>
+  tok_emitted (s "a.h") ex_oracle_G5 (Lexer.tokens_of items) 2 = [s "HEADER_PROT_ALL"] /\
+  Datatypes.length (Lexer.tokens_of items) = 22%nat /\
+  map tv (firstn 5 (EngineTok.remaining ex_oracle_G5 (Lexer.tokens_of items) 1)) =
+  ifndef_line (s "A_H") /\
+  turn_g RegistryOrder.primaries_order (EngineTok.remaining ex_oracle_G5 (Lexer.tokens_of items) 1) =
+  Some (Engine.Matched PRE 5) /\ norm_name (s "IsFuncPrototype") = s "IsOther"
+  | _ => False
+  end.
+Proof. exact ex_file_G5. Qed.
+Print Assumptions C14_example_file_G5.
